@@ -69,8 +69,8 @@ def gen_case(run_seed: int, tier: str) -> dict[str, Any]:
     w = sub_rng(run_seed, "workload")
     tree: dict[str, Any] = {}
     docs: list[str] = []
-    ndocs = w.choice([1, 1, 1, 2, 2, 3, 4])
-    names = ["a.md", "b.md", "notes.md", "docs/c.md", "docs/sub/d.md", "README.md"]
+    ndocs = w.choice([1, 1, 1, 2, 2, 3, 4]) if w.random() < 0.96 else w.randint(6, 10)
+    names = ["a.md", "b.md", "notes.md", "docs/c.md", "docs/sub/d.md", "README.md", "docs/e.md", "docs/sub/deep/er/f.md", "g.md", "h.md"]
     w.shuffle(names)
     if w.random() < 0.03:
         names[0] = "L" * 236 + ".md"  # name + temp suffix exceeds NAME_MAX
@@ -88,6 +88,8 @@ def gen_case(run_seed: int, tier: str) -> dict[str, Any]:
             data = ("# Tiny\n").encode()
         elif r < 0.36:
             data = corpus.gen_big_doc(w, w.choice([70, 140])).encode()  # several buffer-sized raw writes
+        elif r < 0.37 and tier == "thorough":
+            data = corpus.gen_big_doc(w, 1200).encode()  # above 1 MiB (thorough tier only: every execution costs 0.3 s)
         else:
             data = corpus.gen_doc(w, w.randint(1, 6)).encode()
         tree[name] = {"f": b2j(data)}
@@ -112,6 +114,11 @@ def gen_case(run_seed: int, tier: str) -> dict[str, Any]:
         tree[docs[0]] = dict(tree[docs[0]], mtime=envr.choice([946684800, 4102444800, 1]))
     if envr.random() < 0.12:
         tree[docs[0]] = dict(tree[docs[0]], xattr=1)  # the file carries user.* extended attributes
+    if envr.random() < 0.15:
+        tree[docs[0]] = dict(tree[docs[0]], mode=envr.choice([0o444, 0o400, 0o755, 0o2664, 0o600]))  # permission bits
+    if envr.random() < 0.05 and "/" in docs[0]:
+        # the file is also reachable through a symlinked parent directory
+        tree["ldir"] = {"l": os.path.dirname(docs[0])}
     ident = sub_rng(run_seed, "identity")
     euid = ident.choice([None] * 5 + [0, 1000, 65534])
     if euid is not None and ident.random() < 0.6:
@@ -130,6 +137,8 @@ def gen_case(run_seed: int, tier: str) -> dict[str, Any]:
     files = list(docs)
     w.shuffle(files)
     files = files[: w.randint(1, len(files))]
+    if "ldir" in tree and w.random() < 0.7:
+        files = ["ldir/" + os.path.basename(docs[0])]
     if argkind == "link" and "link.md" in tree:
         files = ["link.md"]
     if mode in ("inplace", "inplace_nobackup", "auto", "stdout"):
@@ -697,7 +706,17 @@ def _run_case(env: Env, case: dict[str, Any], scratch: str, want_trace: bool) ->
             base_log = list(exb.ip.log)
             K = len(base_log)
             counters["baseline_ops"] = K
-        for plan in enumerate_single_faults(base_log, rng, tier):
+        plans = enumerate_single_faults(base_log, rng, tier)
+        cap = 700 if tier == "quick" else 2500
+        if len(plans) > cap:
+            # a very long operation sequence (large file written in many pieces): keep every plan
+            # on non-data operations and a seeded sample of the data-operation plans
+            data_ops = {"read", "write", "os-write", "stdin.read", "stdout.write"}
+            keep = [p for p in plans if base_log[p[0]["at"]].op not in data_ops]
+            rest = [p for p in plans if base_log[p[0]["at"]].op in data_ops]
+            plans = keep + rng.sample(rest, max(0, min(len(rest), cap - len(keep))))
+            counters["sweeps_sampled_not_exhaustive"] = 1
+        for plan in plans:
             one(plan, dict(sweep_knobs), all(f["kind"] in LEGAL_KINDS for f in plan))
         # seeded sequences of 2-3 faults
         singles = enumerate_single_faults(base_log, rng, tier)
@@ -791,7 +810,8 @@ def evidence_extras(counters: dict[str, Any], sets: dict[str, set[str]], runs: d
         "fault_fires_by_kind_and_op": counters.get("fires", {}),
         "legal_io_fires": counters.get("legal_fires", {}),
         "reach_probes": counters.get("probes", {}),
-        "single_fault_sweep_exhaustive_per_workload": True,
+        "single_fault_sweep_exhaustive_per_workload": counters.get("sweeps_sampled_not_exhaustive", 0) == 0,
+        "workloads_with_sampled_sweep": counters.get("sweeps_sampled_not_exhaustive", 0),
         "crash_stub_cross_validated_against_real_process_exit": {"compared": counters.get("crash_stub_vs_real_exit_compared", 0), "mismatches": counters.get("crash_stub_vs_real_exit_mismatch", 0)},
     }
 
